@@ -912,6 +912,7 @@ func (x *Explorer) RealizeExact(tr []Trans, drain bool, after func(i int, t Tran
 	var heldBegin *WorldSnap
 	pulled := map[int]bool{} // trace positions whose step was executed earlier because a FIFO forced it
 	cur := 0
+	forced := 0
 	x.realized = nil
 	take := func(ctrl, id string) string {
 		item := ctrl + "|" + id
@@ -954,10 +955,16 @@ func (x *Explorer) RealizeExact(tr []Trans, drain bool, after func(i int, t Tran
 						break
 					}
 				}
-				if later < 0 || res.Panic != "" {
+				if res.Panic != "" || (later < 0 && forced >= 12) {
 					return fmt.Sprintf("token %s in front of %s(%s) in %s is not a no-op: %v", bt.String(), ctrl, id, bestQ, res.Writes)
 				}
-				pulled[later] = true
+				if later >= 0 {
+					pulled[later] = true
+				} else {
+					// the trace never takes this step (the abstraction let it wait for ever, a FIFO does not): it is
+					// simply executed; the run remains a real one and the oracle at its end decides
+					forced++
+				}
 			}
 			queues = enqueue(QExact, dequeue(queues, bt), res.Tokens)
 		}
